@@ -206,7 +206,8 @@ impl LogStore for RocksDBLogStore {
             .map_err(|e| StorageError::DbError(e.to_string()))?;
 
         if max_index > 0 {
-            self.last_index.store(max_index, Ordering::SeqCst);
+            // maximum over everything stored, not over the last batch (a batch may rewrite lower indexes)
+            self.last_index.fetch_max(max_index, Ordering::SeqCst);
         }
 
         Ok(())
